@@ -245,7 +245,10 @@ def truth(e: list, cur: Any, root: Any, ctx: Any = None, key: Any = None) -> boo
             p = cmp_value(e[2][1], cur, root, ctx)
             if not (isinstance(s, str) and isinstance(p, str)):
                 return False
-            return bool(re.fullmatch(p, s) if e[1] == "match" else re.search(p, s))
+            try:
+                return bool(re.fullmatch(p, s) if e[1] == "match" else re.search(p, s))
+            except re.error:
+                return False  # not a regular expression: LogicalFalse
         raise ValueError(e[1])
     raise ValueError(k)
 
